@@ -3,46 +3,74 @@ package gradtrack
 import "github.com/sahandsafizadeh/qeep/tensor/internal/tensor"
 
 func BackPropagate(t tensor.Tensor) (err error) {
-	return backward(startEdge(t))
-}
+	root := gradContextOf(t)
 
-func startEdge(t tensor.Tensor) (edge *backwardEdge) {
-	return &backwardEdge{
-		target: t,
-		gradFn: func() (tensor.Tensor, error) {
-			// neutral tensor; same shape, all ones
-			return toOnes(t), nil
-		},
-	}
-}
-
-func backward(edge *backwardEdge) (err error) {
-	gctx := gradContextOf(edge.target)
-
-	if !gctx.tracked {
+	if !root.tracked {
 		return nil
-	} else {
+	}
+
+	// consumers before producers; every context exactly once
+	order := topologicalOrder(root)
+	for _, gctx := range order {
 		gctx.bpdirty = true
 	}
 
-	grad, err := edge.gradFn()
+	// neutral tensor; same shape, all ones
+	err = accumulateGrad(root, toOnes(t))
 	if err != nil {
 		return
 	}
 
-	err = accumulateGrad(gctx, grad)
-	if err != nil {
-		return
-	}
+	for _, gctx := range order {
+		for _, e := range gctx.backEdges {
+			target := gradContextOf(e.target)
+			if !target.tracked {
+				continue
+			}
 
-	for _, e := range gctx.backEdges {
-		err = backward(e)
-		if err != nil {
-			return
+			grad, err := e.gradFn()
+			if err != nil {
+				return err
+			}
+
+			err = accumulateGrad(target, grad)
+			if err != nil {
+				return err
+			}
 		}
 	}
 
 	return nil
+}
+
+func topologicalOrder(root *GradContext) (order []*GradContext) {
+	visited := make(map[*GradContext]bool)
+
+	var visit func(*GradContext)
+	visit = func(gctx *GradContext) {
+		if visited[gctx] {
+			return
+		}
+		visited[gctx] = true
+
+		for _, e := range gctx.backEdges {
+			target := gradContextOf(e.target)
+			if target.tracked {
+				visit(target)
+			}
+		}
+
+		order = append(order, gctx)
+	}
+
+	visit(root)
+
+	// reverse post-order
+	for i, j := 0, len(order)-1; i < j; i, j = i+1, j-1 {
+		order[i], order[j] = order[j], order[i]
+	}
+
+	return order
 }
 
 func accumulateGrad(gctx *GradContext, grad tensor.Tensor) (err error) {
